@@ -905,6 +905,10 @@ class Collocator:
             and flattened. If no common time period could be found, two None
             objects are returned.
         """
+        # Without any data points there is nothing to collocate:
+        if not primary["time"].size or not secondary["time"].size:
+            return None, None
+
         if max_interval is not None:
             timer = Timer().start()
             # We do not have to collocate everything, just the common time
